@@ -395,6 +395,30 @@ fn check_tfm(idx: u64, b0: &[u8], origin: &dyn Fn() -> Value, acc: &mut Acc) {
     if !w1.is_empty() {
         acc.count("info_first_pltotf_has_warnings");
     }
+    // the other two character display formats of tfm_to_pl (and another indent) are the same property
+    // list in another spelling: they must lead to the same canonical file
+    for (fmt, indent, name) in [(tfm::pl::CharDisplayFormat::Ascii, 0usize, "Ascii, indent 0"), (tfm::pl::CharDisplayFormat::Octal, 7, "Octal, indent 7")] {
+        let alt = catch(|| {
+            let f = fmt;
+            let o = tfm::algorithms::tfm_to_pl(b0, indent, &move |_| match f {
+                tfm::pl::CharDisplayFormat::Ascii => tfm::pl::CharDisplayFormat::Ascii,
+                tfm::pl::CharDisplayFormat::Octal => tfm::pl::CharDisplayFormat::Octal,
+                _ => tfm::pl::CharDisplayFormat::Default,
+            })
+            .expect("formatting into a String cannot fail");
+            let pl = o.pl_data.expect("converted once already");
+            tfm::algorithms::pl_to_tfm(&pl).0
+        });
+        match alt {
+            Err(p) => fail!("returns", p.describe(), format!("tfm_to_pl / pl_to_tfm panicked with display format {name}")),
+            Ok(b) => {
+                if b != b1 {
+                    fail!(format!("the canonical file ({} bytes)", b1.len()), format!("{} bytes: {}", b.len(), vcore::clip(&hex(&b), 400)), format!("the round trip through the property list in display format {name} gives a different TFM"));
+                }
+                acc.count("display_format_route_compared");
+            }
+        }
+    }
     let o2 = match tftopl(&b1) {
         Ok(o) => o,
         Err(p) => fail!("returns", p.describe(), "tfm_to_pl panicked on the canonical file"),
@@ -559,45 +583,6 @@ fn check_pl_with(idx: u64, pl: &str, origin: &dyn Fn() -> Value, abstract_font: 
 // ------------------------------------------------------------------ generators: property lists
 
 const DIMS: [&str; 4] = ["0.0", "1.0", "1.5", "-0.5"];
-
-fn pl_ligtable(p: &Prog) -> String {
-    let mut s = String::new();
-    if let Some(c) = p.rbc {
-        writeln!(s, "(BOUNDARYCHAR C {})", c as char).unwrap();
-    }
-    if p.words.is_empty() {
-        return s;
-    }
-    s.push_str("(LIGTABLE\n");
-    for (i, w) in p.words.iter().enumerate() {
-        if p.lb_start == Some(i) {
-            s.push_str(" (LABEL BOUNDARYCHAR)\n");
-        }
-        for (c, st) in &p.starts {
-            if *st == i {
-                writeln!(s, " (LABEL C {})", *c as char).unwrap();
-            }
-        }
-        let [skip, next, op, rem] = *w;
-        if op >= 128 {
-            writeln!(s, " (KRN C {} R {})", next as char, ["0.1", "-0.25", "0.0", "0.0"][rem as usize]).unwrap();
-        } else {
-            let form = FORM_NAMES[FORMS.iter().position(|f| *f == op).expect("standard form")];
-            writeln!(s, " ({form} C {} C {})", next as char, rem as char).unwrap();
-        }
-        match skip {
-            0 => {}
-            128 => s.push_str(" (STOP)\n"),
-            n => writeln!(s, " (SKIP D {n})").unwrap(),
-        }
-    }
-    s.push_str(" )\n");
-    s
-}
-
-fn pl_abc(extra: &str) -> String {
-    format!("(DESIGNSIZE R 10.0)\n{extra}(CHARACTER C a (CHARWD R 1.0))\n(CHARACTER C b (CHARWD R 1.5))\n(CHARACTER C c (CHARWD R 0.5) (CHARHT R 1.0))\n")
-}
 
 /// F-dimensions: A has every (wd,ht,dp,ic) of the lattice, B a 16-element sub-lattice, C present or not.
 fn gen_dimensions(i: u64) -> (String, Intended) {
@@ -813,6 +798,29 @@ fn gen_sizes() -> Vec<(String, String)> {
         }
         cases.push((format!("{k} characters, 7 widths"), pl));
     }
+    // 255 / 256 / 257 distinct kern amounts: the kern index needs the second byte (op byte 129) from 256 on
+    for n in [255usize, 256, 257, 600] {
+        let mut s = String::from("(DESIGNSIZE R 10.0)\n(CHARACTER C A (CHARWD R 1.0))\n(CHARACTER C B (CHARWD R 1.0))\n(LIGTABLE (LABEL C A)\n");
+        for i in 0..n {
+            writeln!(s, " (KRN O {:o} R {}.{:03})", i % 256, i / 1000, i % 1000 + 1).unwrap();
+        }
+        s.push_str(" (STOP))\n");
+        for c in 0..256usize {
+            if c != 65 && c != 66 {
+                writeln!(s, "(CHARACTER O {c:o} (CHARWD R 1.0))").unwrap();
+            }
+        }
+        cases.push((format!("{n} kern instructions with {n} distinct amounts"), s));
+    }
+    // dimension values at the ends of the legal range
+    {
+        let mut s = String::from("(DESIGNSIZE R 10.0)\n");
+        for (c, v) in ['A', 'B', 'C', 'D', 'E', 'F'].iter().zip(["15.999999", "-15.999999", "0.000001", "-0.000001", "0.999999", "7.5"]) {
+            writeln!(s, "(CHARACTER C {c} (CHARWD R {v}) (CHARHT R {v}) (CHARDP R {v}) (CHARIC R {v}))").unwrap();
+        }
+        s.push_str("(CHARACTER O 0 (CHARWD R 1.0))\n(CHARACTER O 177 (CHARWD R 1.0))\n(CHARACTER O 200 (CHARWD R 1.0))\n(CHARACTER O 377 (CHARWD R 1.0))\n");
+        cases.push(("dimensions +-15.999999, +-0.000001, 0.999999; characters 0, 127, 128, 255".into(), s));
+    }
     // up to 256 characters (+ the boundary) each labelling its own chain: up to 257 entry points,
     // all of which need a restart word when enough unlabelled instructions precede them
     for nchars in [254usize, 255, 256] {
@@ -1014,12 +1022,17 @@ fn write_tfm_with(p: &Prog, sw: u32, extra: Option<&[u32]>, raw_lk: Option<(&[[u
 /// A minimal hand-written TFM: characters (code, tag, remainder) of width 1.0, a lig/kern array, extensible
 /// recipes and the seven-bit-safe byte given verbatim.
 fn simple_tfm(chars: &[(u8, u8, u8)], lk: &[[u8; 4]], exten: &[[u8; 4]], sbs: u8) -> Vec<u8> {
+    simple_tfm_face(chars, lk, exten, sbs, 0, 2)
+}
+
+/// The same with the face byte and the number of parameters given.
+fn simple_tfm_face(chars: &[(u8, u8, u8)], lk: &[[u8; 4]], exten: &[[u8; 4]], sbs: u8, face: u8, np: usize) -> Vec<u8> {
     let bc = chars.iter().map(|c| c.0).min().unwrap_or(1) as usize;
     let ec = chars.iter().map(|c| c.0).max().unwrap_or(0) as usize;
     let nk = if lk.is_empty() { 0 } else { 1 };
-    let lf = 6 + 18 + (ec + 1 - bc) + 2 + 1 + 1 + 1 + lk.len() + nk + exten.len() + 2;
+    let lf = 6 + 18 + (ec + 1 - bc) + 2 + 1 + 1 + 1 + lk.len() + nk + exten.len() + np;
     let mut out: Vec<u8> = vec![];
-    for v in [lf, 18, bc, ec, 2, 1, 1, 1, lk.len(), nk, exten.len(), 2] {
+    for v in [lf, 18, bc, ec, 2, 1, 1, 1, lk.len(), nk, exten.len(), np] {
         out.extend((v as u16).to_be_bytes());
     }
     let mut hb = vec![0u8; 72];
@@ -1030,6 +1043,7 @@ fn simple_tfm(chars: &[(u8, u8, u8)], lk: &[[u8; 4]], exten: &[[u8; 4]], sbs: u8
     hb[48] = 3;
     hb[49..52].copy_from_slice(b"ABC");
     hb[68] = sbs;
+    hb[71] = face;
     out.extend(&hb);
     for c in bc..=ec {
         match chars.iter().find(|x| x.0 as usize == c) {
@@ -1048,7 +1062,9 @@ fn simple_tfm(chars: &[(u8, u8, u8)], lk: &[[u8; 4]], exten: &[[u8; 4]], sbs: u8
     for e in exten {
         out.extend(e);
     }
-    out.extend([0, 4, 0, 0, 0, 8, 0, 0]); // two parameters
+    for k in 0..np {
+        out.extend((((k % 7 + 1) as i32) << 18).to_be_bytes()); // parameters 0.25 .. 1.75
+    }
     out
 }
 
@@ -1462,6 +1478,59 @@ fn main() {
             }
         },
     );
+    // (viii) every face byte, TFM side and PL side
+    ctx.family("tfm-face", "hand-written TFM files with every face byte 0..=255 x {characters A,B / characters 0,127,128,255} x {2, 254 parameters}; two characters sharing one extensible recipe and two with different recipes", 256 * 4 + 1, |i, acc| {
+        let b = if i < 1024 {
+            let face = (i % 256) as u8;
+            let chars: Vec<(u8, u8, u8)> = if (i / 256) % 2 == 0 { vec![(65, 0, 0), (66, 0, 0)] } else { vec![(0, 0, 0), (127, 0, 0), (128, 0, 0), (255, 0, 0)] };
+            if (17..=19).contains(&face) || face == 255 || face == 0 {
+                acc.count("face_byte_at_coded_numbered_boundary");
+            }
+            simple_tfm_face(&chars, &[], &[], 0, face, if i / 512 == 0 { 2 } else { 254 })
+        } else {
+            simple_tfm_face(&[(65, 3, 0), (66, 3, 0), (67, 3, 1), (68, 0, 0)], &[], &[[0, 0, 0, 68], [68, 0, 68, 68]], 0, 0, 2)
+        };
+        check_tfm(i, &b, &|| json!({"kind": "tfm-face", "i": i}), acc);
+    });
+    {
+        let mut faces: Vec<(String, u8)> = vec![];
+        for (e, ec) in ["R", "C", "E"].iter().enumerate() {
+            for (w, wc) in ["M", "B", "L"].iter().enumerate() {
+                for (sl, sc) in ["R", "I"].iter().enumerate() {
+                    faces.push((format!("F {wc}{sc}{ec}"), (6 * e + 2 * w + sl) as u8));
+                }
+            }
+        }
+        for v in 0..=24u32 {
+            faces.push((format!("O {v:o}"), v as u8));
+        }
+        faces.push(("O 377".into(), 255));
+        faces.push(("D 255".into(), 255));
+        faces.push(("D 18".into(), 18));
+        faces.push(("H 12".into(), 18));
+        let fs = &faces;
+        ctx.family("pl-face", "property lists with FACE F <all 18 coded faces>, FACE O 0..30 (octal), O 377, D 255, D 18, H 12: the face byte of the TFM is compared with the code, then the round trip", faces.len() as u64, |i, acc| {
+            let (txt, code) = &fs[i as usize];
+            let pl = format!("(FACE {txt})\n(DESIGNSIZE R 10.0)\n(CHARACTER C A (CHARWD R 1.0))\n");
+            if let Ok((b0, w0)) = pltotf(&pl) {
+                if w0.is_empty() {
+                    if let Ok(r) = tfmraw::parse(&b0) {
+                        let got = r.header.get(17).map(|w| w[3]);
+                        if got != Some(*code) {
+                            acc.eval();
+                            acc.fail(i, json!({"kind": "pl-face", "pl": pl}), format!("face byte {code}"), format!("{got:?}"), "the TFM does not have the face of the property list");
+                            return;
+                        }
+                        acc.count("pl_face_code_compared");
+                    }
+                }
+            }
+            check_pl(i, &pl, &|| json!({"kind": "pl-face", "face": txt}), None, acc);
+        });
+    }
+    ctx.require("face_byte_at_coded_numbered_boundary", "hand-written TFM files with face byte 0, 17, 18, 19 or 255");
+    ctx.require("pl_face_code_compared", "property lists whose FACE was compared with the face byte of the TFM");
+    ctx.require("display_format_route_compared", "warning-free originals whose Ascii / Octal property lists were converted too");
     ctx.require("varchar_absent_piece_without_character_0_checked", "a warning-free hand-written TFM with an extensible recipe that lacks a piece, in a font without character 0");
     ctx.require("boundary_program_inserts_8bit_glyph_in_otherwise_safe_font_checked", "a warning-free hand-written TFM whose left-boundary program inserts an 8-bit glyph while no 7-bit character does");
     ctx.require("restart_word_inside_skip_window_checked", "a warning-free hand-written TFM in which a SKIP jumps over a restart word");
